@@ -45,7 +45,7 @@ RULE = ("a case is a base frame spec, an in_port and either one match (wildcard 
         ">= 2 matching entries of different priority. Distinct by SHA-1 of the canonical JSON of the case")
 ASSUMPTIONS = [
   "pvf/ref/of10_match reads the specification correctly: VLAN id 0xffff / PCP 0 for untagged frames, type after the first tag, "
-  "802.2+SNAP(OUI 0) -> SNAP type, other 802.3 -> 0x05ff, ARP opcode low byte / SPA / TPA, ICMP type/code in tp_src/tp_dst, "
+  "802.2+SNAP(OUI 0) -> SNAP type, every other 802.3 frame (no SNAP, or SNAP with another OUI) -> 0x05ff and no nw/tp fields, ARP opcode low byte / SPA / TPA, ICMP type/code in tp_src/tp_dst, "
   "transport fields zero for every IP fragment (offset != 0 or MF)",
   "protocol specific fields take part only when the match itself specifies the protocol with a non-wildcarded field "
   "(dl_type 0x0800/0x0806 for nw_src/nw_dst/nw_proto, 0x0800 for nw_tos, additionally nw_proto in {1,6,17} for tp_src/tp_dst); "
@@ -53,13 +53,13 @@ ASSUMPTIONS = [
   "an entry is an exact match iff its wire wildcard word has no OFPFW_ALL bit set; an entry whose only wildcard bits sit on "
   "fields made inapplicable by the prerequisite rule may rank either as exact or by its priority (either accepted)",
   "not judged (counted as ambiguous): nw_tos when the frame has ECN bits or the match has the low two bits set; dl_vlan_pcp "
-  "against untagged frames where the two readings differ; SNAP with a non-zero OUI; 802.3 inside a VLAN tag; ARP opcode > 255; transport ports "
+  "against untagged frames where the two readings differ; 802.3 inside a VLAN tag; ARP opcode > 255; transport ports "
   "matched with an IP protocol other than ICMP/TCP/UDP",
   "with two matching entries of equal effective priority either may win",
   "frames are well formed (correct lengths and checksums, CFI 0); malformed frames belong to C15",
 ]
 EXHAUSTIVE_SCOPE = {
-  "quick": "direct path: all 1024 single-bit wildcard combinations x prefix pairs {(32,32),(24,8),(0,31)} x 16 frame kinds x "
+  "quick": "direct path: all 1024 single-bit wildcard combinations x prefix pairs {(32,32),(24,8),(0,31)} x 18 frame kinds x "
            "{wildcarded fields zeroed, wildcarded fields holding adversarial garbage} x (base frame + every applicable one-field perturbation)",
   "thorough": "as quick with prefix lengths {0,1,8,24,31,32}^2 for all 1024 combinations, and all 33 x 33 prefix pairs for the "
               "nw-only matches (dl_type specified, rest wildcarded) on IP and ARP frames",
@@ -169,7 +169,7 @@ def pox_matches(pm, frame, in_port, pkm=None):
 
 def _zone(pktf):
   notes = pktf.get("notes", ())
-  for n in ("snap", "llc", "fragment"):
+  for n in ("snap-oui", "snap", "llc", "fragment"):
     if n in notes:
       return n
   return "plain"
